@@ -64,6 +64,10 @@ def gen_W_case(rng, quick):
                     idR.append(r)
             if not finite:
                 idL[L], idR[L] = idL[0], idR[0]
+            elif rng.random() < 0.3:
+                # the form MPO.from_grids gives a finite MPO: one state (IdL) on the first, one (IdR) on the last bond
+                chi[0], idL[0], idR[0] = 1, 0, None
+                chi[L], idL[L], idR[L] = 1, None, 0
             return chi, idL, idR
         if partial:
             kL = rng.randint(0, L)        # IdL on bonds 0..kL
@@ -135,6 +139,15 @@ def gen_W_case(rng, quick):
             tb = abs(tb)           # python: beta ** (1/2) of a positive float
         case['plus_identity'] = {'alpha': oc.fr_str(alpha), 'tb': oc.fr_str(tb), 'N': N,
                                  'sites': list(range(start, start + N))}
+        if rng.random() < 0.6:
+            # applied once more to its own result (alpha2 + beta2 * (alpha + beta * A))
+            N2 = rng.choice([1, 1, 2])
+            st2 = rng.randint(0, L - N2)
+            tb2 = Fraction(rng.choice([1, 2, 3, -2]), rng.choice([1, 2]))
+            if N2 == 2:
+                tb2 = abs(tb2)
+            case['plus_identity']['second'] = {'alpha': oc.fr_str(Fraction(rng.randint(-3, 3), rng.choice([1, 2]))),
+                                               'tb': oc.fr_str(tb2), 'N': N2, 'sites': list(range(st2, st2 + N2))}
     if markers and not partial:
         case['UI'] = {'dt': [oc.fr_str(Fraction(rng.randint(-2, 2), 4)), oc.fr_str(Fraction(rng.choice([-1, 1, 2]), 4))]}
         qs = []
@@ -190,6 +203,9 @@ def gen_terms_case(rng, quick):
             case['B_is_A_plus_one'] = True
     elif r < 0.85:
         case['tlB'] = [t for t in tlA]   # equal
+    # the same MPO read as "stored half": explicit_plus_hc=True denotes H_half + H_half^dagger; expectation values on a
+    # complex state (finite: dense vector; infinite: random iMPS, all three methods)
+    case['epc'] = rng.random() < 0.6
     if finite:
         case['apply'] = True
         # MPOGraph.from_term_list(insert_all_id=False): IdL / IdR only on the bonds where they are needed
@@ -234,6 +250,16 @@ def W_to_mpo(case, ents, which='A'):
         Ws.append(npc.Array.from_ndarray_trivial(W, labels=['wL', 'wR', 'p', 'p*']))
     return MPO([site] * L, Ws, 'finite' if case['finite'] else 'infinite', list(idL_), list(idR_),
                max_range=None, mps_unit_cell_width=L)
+
+
+def hc_termlist(case, tl):
+    """the hermitian conjugates of the terms: operators in reversed order, names by the site's hc table"""
+    site = oc.make_site(case['site'])
+    out = []
+    for term, s_ in tl:
+        z = oc.parse_gq(s_)
+        out.append([[[site.get_hc_op_name(o), i] for o, i in reversed(term)], oc.gq(z.conjugate())])
+    return out
 
 
 def terms_to_mpo(case, tl, which='A'):
